@@ -425,8 +425,8 @@ func (s *Solver) standalone(pc []*Term, extra *Term, vars []*Term, logic string)
 }
 
 type fallbackSpec struct {
-	name string
-	argv []string
+	name  string
+	argv  []string
 	logic string
 }
 
